@@ -18,6 +18,7 @@ func (in *Interp) unop(g *G, fr *Frame, ins *ssa.UnOp) Value {
 			in.goPanic(g, "nil pointer dereference (load "+ins.X.Type().String()+")")
 			return Value{}
 		}
+		in.raceTouch(x.R.(*Value), false)
 		return copyVal(*(x.R.(*Value)))
 	case token.NOT:
 		if x.R != nil {
@@ -41,7 +42,9 @@ func (in *Interp) unop(g *G, fr *Frame, ins *ssa.UnOp) Value {
 		if len(ch.buf) > 0 {
 			v, ok = ch.buf[0], true
 			ch.buf = ch.buf[1:]
+			in.raceAcquire(ch)
 		} else if ch.closed {
+			in.raceAcquire(ch)
 			v = zero(ins.X.Type().Underlying().(*types.Chan).Elem())
 		} else {
 			fr.pc--
@@ -710,6 +713,7 @@ func (in *Interp) lookup(g *G, fr *Frame, ins *ssa.Lookup) {
 	var v Value
 	found := false
 	if x.R != nil {
+		in.raceAccess(x.R.(*MapV), false)
 		ks, ok := keyOf(k)
 		if !ok {
 			unsupported("symbolic map key in lookup")
@@ -772,6 +776,7 @@ func (in *Interp) rangeInit(x Value) Value {
 		it := &rangeIter{}
 		if x.R != nil {
 			it.m = x.R.(*MapV)
+			in.raceAccess(it.m, false)
 		}
 		return Value{K: KOpaque, R: it}
 	case KStr:
